@@ -5,6 +5,7 @@ import JV.Spec.BinFormats
 import JV.Model.Cbor
 import JV.Model.Msgpack
 import JV.Model.Ubjson
+import JV.Model.CborParser
 namespace JV
 namespace Drv
 open Spec.Cbor
@@ -71,8 +72,26 @@ partial def cvOfTokens : List String → Option (Model.Cbor.CV × List String)
       mems [] rest
     | _ => none
 
+/-- `d<N>` in an option string (the harness's max_nesting_depth option), default 1024 -/
+def depthOpt (opts : String) : Nat :=
+  match opts.toList with
+  | 'd' :: cs => (String.ofList cs).toNat?.getD Model.CborParser.defaultMaxDepth
+  | _ => Model.CborParser.defaultMaxDepth
+
 /-- bin sdec <fmt> x<bytes> -/
 def binaryLine : List String → String
+  | ["mdec", "cbor", opts, x] =>
+    -- bin mdec cbor <-|dN> x<bytes>  →  the outcome of the cbor_parser model: value | err jsoncons/cbor:<code> | skip (outside the fragment)
+    (match (match x.toList with | 'x' :: cs => Wire.bytesOfHexChars cs | _ => none) with
+     | none => "bad-op"
+     | some s =>
+       match Model.CborParser.decode (depthOpt opts) s with
+       | .ok v _ => (match Model.CborParser.toBV Model.CborParser.renderKey v with
+         | some bv => "ok " ++ " ".intercalate (bvTokens bv)
+         | none => "skip")
+       | .fail (.err e) => "err jsoncons/cbor:" ++ toString e.code
+       | .fail .skip => "skip"
+       | .fail .fuel => "fuel")
   | ["sdec", fmt, x] =>
     match (match x.toList with | 'x' :: cs => Wire.bytesOfHexChars cs | _ => none) with
     | none => "bad-op"
